@@ -185,7 +185,10 @@ Inductive fsop :=
 | OpMkdir (p : list bytes)
 | OpRmdir (p : list bytes).
 
-Record fsys := { fs_files : list (list bytes * file); fs_dirs : list (list bytes); fs_log : list fsop }.
+(* fs_fault: the fault oracle for C18 - Some k: the k-th output operation from now (counting from 0) fails
+   with an I/O error and has no effect; None: no (further) fault.  fs_fired records that it happened. *)
+Record fsys := { fs_files : list (list bytes * file); fs_dirs : list (list bytes); fs_log : list fsop;
+                 fs_fault : option nat; fs_fired : bool }.
 
 Fixpoint split_slash_aux (p cur : bytes) : list bytes :=
   match p with
@@ -245,7 +248,8 @@ Definition remove_assoc (p : npath) (l : list (npath * file)) : list (npath * fi
 Definition fs_remove_file (fs : fsys) (p : npath) : fsys + fserr :=
   if existsb (is_file fs) (prefixes p) then inr FsOther
   else if is_file fs p then inl {| fs_files := remove_assoc p (fs_files fs); fs_dirs := fs_dirs fs;
-                                   fs_log := fs_log fs ++ [OpUnlink p] |}
+                                   fs_log := fs_log fs ++ [OpUnlink p];
+                                   fs_fault := fs_fault fs; fs_fired := fs_fired fs |}
   else if is_dir fs p then inr FsOther
   else inr NotFound.
 
@@ -254,7 +258,8 @@ Definition fs_create_dir_all (fs : fsys) (p : npath) : fsys + fserr :=
   if existsb (is_file fs) (prefixes p ++ [p]) && negb (is_nil p) then inr FsOther
   else let newdirs := filter (fun d => negb (is_dir fs d)) (prefixes p ++ (match p with [] => [] | _ => [p] end)) in
        inl {| fs_files := fs_files fs; fs_dirs := fs_dirs fs ++ newdirs;
-              fs_log := fs_log fs ++ List.map OpMkdir newdirs |}.
+              fs_log := fs_log fs ++ List.map OpMkdir newdirs;
+              fs_fault := fs_fault fs; fs_fired := fs_fired fs |}.
 
 (* File::create + set_permissions + write: truncates an existing file in place *)
 Definition fs_create (default_mode : N) (fs : fsys) (p : npath) (mode : option N) (data : bytes) : fsys + fserr :=
@@ -268,7 +273,8 @@ Definition fs_create (default_mode : N) (fs : fsys) (p : npath) (mode : option N
              | None => match lookup_file p (fs_files fs) with Some f => f_mode f | None => default_mode end
              end in
     inl {| fs_files := remove_assoc p (fs_files fs) ++ [(p, {| f_data := data; f_mode := m |})];
-           fs_dirs := fs_dirs fs; fs_log := fs_log fs ++ [OpCreate p (is_file fs p)] |}.
+           fs_dirs := fs_dirs fs; fs_log := fs_log fs ++ [OpCreate p (is_file fs p)];
+           fs_fault := fs_fault fs; fs_fired := fs_fired fs |}.
 
 Definition dir_is_empty (fs : fsys) (d : npath) : bool :=
   negb (existsb (fun e => npath_eqb (parent (fst e)) d && negb (is_nil (fst e))) (fs_files fs)) &&
@@ -285,7 +291,8 @@ Fixpoint clean_up (fuel : nat) (fs : fsys) (d : npath) : fsys :=
           if negb (is_dir fs d) then fs
           else if dir_is_empty fs d
                then clean_up f {| fs_files := fs_files fs; fs_dirs := filter (fun x => negb (npath_eqb x d)) (fs_dirs fs);
-                                  fs_log := fs_log fs ++ [OpRmdir d] |} (parent d)
+                                  fs_log := fs_log fs ++ [OpRmdir d];
+                                  fs_fault := fs_fault fs; fs_fired := fs_fired fs |} (parent d)
                else fs
       end
   end.
@@ -485,8 +492,19 @@ Notation "'dom' x <- e ; f" := (mbind e (fun x => f))
   (at level 200, x pattern, e at level 100, f at level 200, right associativity).
 
 (* a file-system operation; [on_err] says what its failure means *)
+(* an output operation: counted by the fault oracle; a fault is an I/O error (never NotFound) *)
+Definition set_fault (fs : fsys) (f : option nat) (fired : bool) : fsys :=
+  {| fs_files := fs_files fs; fs_dirs := fs_dirs fs; fs_log := fs_log fs; fs_fault := f; fs_fired := fired |}.
+
 Definition mop (op : fsys -> fsys + fserr) (on_err : fserr -> res unit) : M unit :=
-  fun fs => match op fs with inl fs' => (fs', ROk tt) | inr e => (fs, on_err e) end.
+  fun fs =>
+    match fs_fault fs with
+    | Some O => (set_fault fs None true, on_err FsOther)
+    | Some (S k) =>
+        let fs0 := set_fault fs (Some k) (fs_fired fs) in
+        match op fs0 with inl fs' => (fs', ROk tt) | inr e => (fs0, on_err e) end
+    | None => match op fs with inl fs' => (fs', ROk tt) | inr e => (fs, on_err e) end
+    end.
 
 (* rollback_and_render_rej_files: the failing patch is rolled back in memory and the reject of each
    of its failing file patches is rendered; nothing is written yet *)
